@@ -29,7 +29,7 @@ type WOp struct {
 var WriteKinds = []string{
 	"create", "create_slice", "create_ptr_slice", "create_batches", "create_map",
 	"save", "save_slice",
-	"update", "updates_struct", "updates_map", "updates_assoc", "update_column", "update_columns",
+	"update", "updates_struct", "updates_map", "updates_assoc", "updates_self", "update_column", "update_columns",
 	"delete", "delete_pet", "delete_select", "delete_where", "delete_slice",
 }
 
@@ -116,6 +116,12 @@ func (op *WOp) Exec(db *gorm.DB) (res Result) {
 		v.ID = 0
 		res.Roots, res.Value = []*fam.User{u}, u
 		return done(db.Model(u).Updates(v))
+	case "updates_self":
+		// Updates with the record itself as value: its associations are upserted.
+		u := op.Users[0].Build()
+		u.ID = op.Target
+		res.Roots, res.Value = []*fam.User{u}, u
+		return done(db.Updates(u))
 	case "update_column":
 		u := &fam.User{ID: op.Target}
 		res.Roots, res.Value = []*fam.User{u}, u
@@ -174,7 +180,7 @@ func GenWOp(r *core.Rand, kinds []string) WOp {
 	op.Target = uint(1 + r.Intn(fam.FixUsers))
 	op.FullSave = r.Chance(25)
 	switch op.Kind {
-	case "create", "save", "updates_assoc":
+	case "create", "save", "updates_assoc", "updates_self":
 		op.Users = []fam.UserSpec{g.User(1)}
 	case "create_slice", "create_ptr_slice", "save_slice":
 		n := r.Range(0, 3)
@@ -208,7 +214,7 @@ func GenWOp(r *core.Rand, kinds []string) WOp {
 func ShrinkWOp(op WOp) []WOp {
 	var out []WOp
 	for i := range op.Users {
-		if len(op.Users) > 1 || (op.Kind != "create" && op.Kind != "save" && op.Kind != "updates_assoc") {
+		if len(op.Users) > 1 || (op.Kind != "create" && op.Kind != "save" && op.Kind != "updates_assoc" && op.Kind != "updates_self") {
 			v := op
 			v.Users = append(append([]fam.UserSpec{}, op.Users[:i]...), op.Users[i+1:]...)
 			out = append(out, v)
